@@ -151,7 +151,6 @@ def analyse(sh, single_toggles):
                 for t in single_toggles:
                     m = models.get(t)
                     if m is not None and all(vals(m[i]) == exp[i] for i in idx): who = t + "(interleaved)"; break
-                if who is None and rep_ok: who = "+".join(single_toggles) + "(interleaved)"
             if who is None: res["unexplained"].append(rec)
             else: res["attributed"].setdefault(who, []).append(rec)
         # core model
